@@ -579,6 +579,51 @@ def peephole_guards(ctx):
                                 f'can leave the range again (rounding up at '
                                 f'the upper bound) and the assembler then '
                                 f'fails on the operand', f.file, a.lineno)
+    # the rounding step of the fold covers every float source: its guard
+    # is about the value (isinstance float), a Type predicate, or names
+    # both float type chars; a guard naming one of '!' / '#' leaves the
+    # other truncated by int() while the conv handler rounds
+    rule_r = 'C02.conv-fold-rounds-every-float-source'
+    ctx.rule(rule_r, 'the round() of the push+conv fold is guarded only by '
+             'conditions that hold for SINGLE and DOUBLE sources alike')
+    for n in cfg.stmt_nodes():
+        if n.kind != 'stmt' or not any(
+                isinstance(c, ast.Call) and dotted(c.func) == 'round'
+                for c in ast.walk(n.ast)):
+            continue
+        conds = cfg.conditions(n)
+        if not any('Op.CONV' in unparse(t.ast.test) and lab == 'true'
+                   for t, lab in conds):
+            continue
+        construct = f'{f.file}:QvmCode.optimize:conv-fold:round-guard'
+        partial = []
+        for t, lab in conds:
+            test = t.ast.test
+            if 'Op.CONV' in unparse(test):
+                continue
+            conj = test.values if isinstance(test, ast.BoolOp) and \
+                isinstance(test.op, ast.And) and lab == 'true' else [test]
+            for cj in conj:
+                if not isinstance(cj, ast.Compare) or len(cj.ops) != 1:
+                    continue
+                consts = [x.value for x in ast.walk(cj)
+                          if isinstance(x, ast.Constant) and
+                          isinstance(x.value, str)]
+                chars = {ch for cst in consts for ch in cst
+                         if ch in '!#'} if all(
+                    len(cst) <= 4 for cst in consts) else set()
+                if chars and chars != {'!', '#'}:
+                    partial.append((unparse(cj), sorted(chars)))
+        ctx.instance(rule_r, construct,
+                     sample={'conditions': [(unparse(t.ast.test), lab)
+                                            for t, lab in conds]})
+        for txt, chars in partial:
+            ctx.finding(rule_r, construct,
+                        f'the fold rounds only under `{txt}`, which names '
+                        f'float type char(s) {chars} and not the other: a '
+                        f'constant of the other float type is truncated by '
+                        f'the integer constructor at -O2 while the conv '
+                        f'instruction rounds it at -O0', f.file, n.line)
     ctx.floor('push+conv fold sites', n_sites, 1)
 
 
